@@ -38,7 +38,7 @@ _ST = ["OPEN", "TO_REVIEW", "CLOSED", "RESOLVED", "REVIEWED"]
 
 def _sonar_entry(i, kind, status, with_range=True):
     e = {"key": f"K{kind}{i}", ("rule" if kind == "i" else "ruleKey"): f"python:S{100 + i}", "status": status,
-         "component": f"proj:src/f{i}.py", "message": f"m{i}"}
+         "component": (f"proj:src/f{i}.py" if i % 3 else f"com.acme:billing:src/f{i}.py"), "message": f"m{i}"}
     if with_range:
         e["textRange"] = {"startLine": 3 + i, "endLine": 3 + i, "startOffset": 4, "endOffset": 9 + i}
     return e
@@ -176,6 +176,41 @@ def run(tier="quick", seed=0):
            lambda d: sarif_reference(d, lambda t: "semgrep" in t.lower(), False))
         go("CodeQLResultSet.from_sarif", sarif_docs(rng, n), lambda p: CodeQLResultSet.from_sarif(p),
            lambda d: sarif_reference(d, lambda t: "CodeQL" in t, True))
+        records.append(_accumulator_check(tmp, rng))
     finally:
         shutil.rmtree(tmp, ignore_errors=True)
     return records
+
+
+def _accumulator_check(tmp, rng):
+    """process_sonar_findings over several selections and orders of the same files, in ONE process (the readers are memoised):
+    each call must deliver exactly the union of the reference extractions of the files it was given - nothing left over from an
+    earlier call, nothing twice"""
+    from core_codemods.sonar.api import process_sonar_findings
+    docs = [{"issues": [_sonar_entry(1, "i", "OPEN")]}, {"issues": [_sonar_entry(2, "i", "OPEN")], "hotspots": [_sonar_entry(12, "h", "TO_REVIEW")]},
+            {"issues": [_sonar_entry(4, "i", "OPEN"), _sonar_entry(5, "i", "OPEN")]}]
+    paths = []
+    for i, d in enumerate(docs):
+        p = os.path.join(tmp, f"acc_{i}.json")
+        json.dump(d, open(p, "w"))
+        paths.append(p)
+    selections = [(0, 1), (1, 0), (0,), (1,), (2, 0), (0, 1, 2), (1,), (0,)]
+    evals, bad = 0, None
+    for sel in selections:
+        files = tuple(paths[i] for i in sel)
+        want = sorted(set(x for i in sel for x in sonar_reference(docs[i])))
+        try:
+            got = sorted(set(_flat(process_sonar_findings(files))))
+            dup = len(_flat(process_sonar_findings(files))) != len(set(_flat(process_sonar_findings(files))))
+        except Exception as e:      # noqa
+            got, dup = f"raised {type(e).__name__}: {e}", False
+        evals += 1
+        if (got != want or dup) and bad is None:
+            bad = {"files": [os.path.basename(f) for f in files], "delivered": got if isinstance(got, str) else [list(x) for x in got],
+                   "reference": [list(x) for x in want], "duplicates": dup, "earlier calls": [list(s) for s in selections[:selections.index(sel)]]}
+    return {"kind": "bounded", "id": "bounded:accumulator:process_sonar_findings is a function of the files given (repeated calls in one process)",
+            "status": "refuted" if bad else "discharged", "bound": "8 selections/orders of 3 Sonar files, called in sequence in one process",
+            "evaluations": evals, "witness": bad, "func": "core_codemods.sonar.api.process_sonar_findings",
+            "reason": "" if not bad else "the findings delivered depend on earlier calls (state left behind in a memoised result set) or contain duplicates",
+            "replay": {"reproduced": True, "detail": json.dumps(bad, default=str)[:1500]} if bad else None,
+            "clause": "set of findings delivered == union of the reference extractions of exactly the given files, each once"}
